@@ -200,8 +200,21 @@ def addedStep (preserve : Bool) (empty : List EP) (acc : Option PairSt × Nat) (
         let (s, ok) := s.exec (.enable e.name e.ip e.port e.weight)
         (some (if !ok || e.label ≠ "" then { s with updated := false } else s), acc.2 + 1)
 
-/-- stage 5: remaining empty slots are copied to the current backend -/
+/-- name and cookie of a carried-over slot -/
+def setSlot (l : List EP) (i : Nat) (n ck : String) : List EP := l.modify i (fun e => { e with name := n, cookie := ck })
+
+/-- stage 5: remaining empty slots are copied to the current backend: `ep := curBack.AddEmptyEndpoint();
+ep.Name = empty[i].Name; ep.CookieValue = empty[i].CookieValue` (the running server keeps the cookie it was loaded
+with — repair 91faf0b; before it only the name was kept: `copyEmptyOld`) -/
 def copyEmpty (preserve : Bool) (iw : Int) (cur : List EP) (slots : List EP) : List EP :=
+  (slots.foldl (fun (b : Back) slot =>
+      let b := addEmpty b
+      { b with eps := setSlot b.eps (b.eps.length - 1) slot.name slot.cookie })
+    ({ eps := cur, dynUpdate := true, resolver := false, cookiePreserve := preserve, initialWeight := iw } : Back)).eps
+
+/-- stage 5 before repair 91faf0b (`curBack.AddEmptyEndpoint().Name = empty[i].Name`): the copied slot gets a NEW
+placeholder cookie; kept for the witness `free_slot_cookie_drift` -/
+def copyEmptyOld (preserve : Bool) (iw : Int) (cur : List EP) (slots : List EP) : List EP :=
   (slots.foldl (fun (b : Back) slot =>
       let b := addEmpty b
       { b with eps := setName b.eps (b.eps.length - 1) slot.name })
@@ -317,5 +330,112 @@ def oracle (old : Back) (allOk : Bool) (o : Outcome) : Option String :=
   if old.resolver then (if o.cur.length = old.eps.length ∧ o.cmds.isEmpty then none else some "server-template-size-differs") else
   if sortN (norm (o.cmds.foldl applyCmd (load old.eps))) ≠ sortN (norm (load o.cur)) then
     some "running-differs-from-disk" else none
+
+/-! ### the cookie column of the runtime table (trusted HAProxy semantics)
+
+haproxy.tmpl prints ` cookie <CookieValue>` on a `server` line iff `Backend.CookieAffinity()` (cookie name set, not
+TCP, not `dynamic`) and `CookieValue ≠ ""` — with and without `preserve` the SAME value is printed; empty slots carry
+the placeholder `AddEmptyEndpoint` gives them (their generated name).  HAProxy keeps the value it loaded:
+`set server … addr/state/weight` does not touch it and no runtime command can change it. -/
+
+/-- the cookie HAProxy loads from the server line of `e` (`""` = no `cookie` keyword) -/
+def renderedCookie (aff : Bool) (e : EP) : String := if aff then e.cookie else ""
+
+/-- The statement lists "preserved cookie values": the column is compared when the backend renders cookies AND
+`session-cookie-preserve` is on.  (Without preserve the code lets the value drift on purpose — comment in
+`AddEmptyEndpoint`, and C11 demands "fits ⇒ no reload" there; see `Props/C02Cookie.lean` `cookie_drifts_without_preserve`.) -/
+def cookieScope (aff preserve : Bool) : Bool := aff && preserve
+
+/-- a running server with the cookie it was loaded with -/
+structure SrvC where
+  srv : Srv
+  cookie : String
+deriving DecidableEq, Repr
+
+def loadSrvC (ck : Bool) (e : EP) : SrvC := ⟨loadSrv e, renderedCookie ck e⟩
+
+/-- the table HAProxy holds after loading the server lines of `eps` (`ck`: the backend renders cookies) -/
+def loadC (ck : Bool) (eps : List EP) : List SrvC := eps.map (loadSrvC ck)
+
+/-- what one exec of `set server` does to one server (`applyCmd t c = t.map (stepSrv c)`) -/
+def stepSrv (c : Cmd) (s : Srv) : Srv :=
+  match c with
+  | .disable n => if s.name = n then { s with state := .maint, ip := emptyIP, port := emptyPort, weight := 0 } else s
+  | .enable n ip port w =>
+    if s.name = n then { s with ip := ip, port := port, weight := w, state := if w > 0 then .ready else .drain } else s
+
+/-- `set server` on the table with cookies: the cookie column is left untouched -/
+def applyCmdC (t : List SrvC) (c : Cmd) : List SrvC := t.map fun s => { s with srv := stepSrv c s.srv }
+
+/-- the running table after the commands -/
+def tableC (ck : Bool) (old : List EP) (cmds : List Cmd) : List SrvC := cmds.foldl applyCmdC (loadC ck old)
+
+abbrev RowC := String × Option (String × Nat × Int × String)
+
+/-- observable normal form with the cookie: as `normSrv`, a server in maintenance is only "name, maint" -/
+def normSrvC (s : SrvC) : RowC :=
+  match s.srv.state with
+  | .maint => (s.srv.name, none)
+  | _ => (s.srv.name, some (s.srv.ip, s.srv.port, s.srv.weight, s.cookie))
+
+def normC (t : List SrvC) : List RowC := t.map normSrvC
+
+def insertNC (x : RowC) : List RowC → List RowC
+  | [] => [x]
+  | y :: ys => if x.1 < y.1 then x :: y :: ys else y :: insertNC x ys
+def sortNC (l : List RowC) : List RowC := l.foldl (fun acc x => insertNC x acc) []
+
+/-- the cookie column of EVERY server, free slots (maintenance) included: rows `(name, cookie)` -/
+def cookieRows (t : List SrvC) : List RowC := t.map fun s => (s.srv.name, some ("", 0, 0, s.cookie))
+
+/-- Spec with the cookie column: the clauses of `oracle`, then "running table = loaded table, cookies included"
+for the servers that take traffic, then the cookie of every server, free slots included — what the next update's
+preserve guard relies on (`ck` = the cookie column is in scope, `cookieScope aff preserve`) -/
+def oracleC (ck : Bool) (old : Back) (allOk : Bool) (o : Outcome) : Option String :=
+  match oracle old allOk o with
+  | some c => some c
+  | none =>
+    if !o.updated || old.resolver then none else
+    if sortNC (normC (tableC ck old.eps o.cmds)) ≠ sortNC (normC (loadC ck o.cur)) then
+      some "running-cookie-differs-from-disk" else
+    if sortNC (cookieRows (tableC ck old.eps o.cmds)) ≠ sortNC (cookieRows (loadC ck o.cur)) then
+      some "free-slot-cookie-differs-from-disk" else none
+
+/-- the same clause on a running table reported by the implementation side (the harness' simulated HAProxy):
+rows `(name, in maintenance, cookie)` against the written endpoints -/
+def runRowsDiffer (ck : Bool) (run : List (String × Bool × String)) (cur : List EP) : Bool :=
+  run.any fun (n, maint, cookie) =>
+    !maint && cur.any (fun e => e.name = n && e.enabled && renderedCookie ck e != (if ck then cookie else ""))
+
+/-- the seeded variant C02e: the preserve guard of the loop that fills empty slots is gone (stage 4 runs as if
+preserve were off); used by the witnesses only -/
+def pairLoopNoSlotGuard (old : List EP) (cur : List EP) (preserve : Bool) (iw : Int) (sameRest : Bool)
+    (script : List Resp) : Option PairSt :=
+  let sp := splitOld old
+  let as := assocCur sp.pairs cur
+  let w0 : Walk := { s := { updated := sameRest, cur := as.cur, script := script }, pairs := as.pairs,
+                     added := as.added, empty := sp.empty }
+  let w := (sortStrs sp.targets).foldl (walkStep preserve) w0
+  match (w.added.foldl (addedStep false w.empty) (some w.s, 0)).1 with
+  | none => none
+  | some s => some { s with cur := copyEmpty preserve iw s.cur (w.empty.drop w.added.length) }
+
+/-- the pairing loop before repair 91faf0b (free slots copied with `copyEmptyOld`); witnesses only -/
+def pairLoopOld (old : List EP) (cur : List EP) (preserve : Bool) (iw : Int) (sameRest : Bool) (script : List Resp) :
+    Option PairSt :=
+  let sp := splitOld old
+  let as := assocCur sp.pairs cur
+  let w0 : Walk := { s := { updated := sameRest, cur := as.cur, script := script }, pairs := as.pairs,
+                     added := as.added, empty := sp.empty }
+  let w := (sortStrs sp.targets).foldl (walkStep preserve) w0
+  match (w.added.foldl (addedStep preserve w.empty) (some w.s, 0)).1 with
+  | none => none
+  | some s => some { s with cur := copyEmptyOld preserve iw s.cur (w.empty.drop w.added.length) }
+
+/-- `checkBackendPair` before repair 91faf0b for a dynamic backend that reaches the loop; witnesses only -/
+def checkBackendPairOld (old cur : Back) (sameRest : Bool) (script : List Resp) : Outcome :=
+  match pairLoopOld old.eps cur.eps cur.cookiePreserve cur.initialWeight sameRest script with
+  | none => ⟨false, cur.eps, [], true⟩
+  | some s => ⟨s.updated, s.cur, s.cmds, false⟩
 
 end HapVerif.C02
